@@ -114,6 +114,14 @@ CHECKS["C20"] = dict(
     design_ref="§2 C20",
 )
 
+CHECKS["C19"] = dict(
+    engine="enum+sched",
+    technique="exhaustive enumeration of generated task programs, each executed inline (sync mode) and by the real ThreadRunner on the in-memory and SQLite stacks in a whole-runner simulation under the controlled scheduler (virtual time, default and round-robin schedules); outcomes compared",
+    text="286 programs in quick (more in thorough): every leaf (plain/direct x max_retries 0..2 x {return, succeed on attempt 2/3, always retriable, non-retriable}), root+child, root+2 single children, root+group of 2, root->child->grandchild over a reduced node alphabet. Each runs (a) with dev_mode_force_sync_tasks, (b) memory stack + ThreadRunner.run(), (c) SQLite stack + ThreadRunner.run(), the runner loop, its task threads and the client being scheduler threads (shim threading/time, SQL-statement points), default and round-robin schedule, 2 slots (thorough: 1 and 2). Compared: value or exception class+args at the caller, body executions per node, num_retries; leaves also against the statement's accounting (k, max_retries+1, 1).",
+    note="Group results combined with an order-insensitive sum; each .result read once; exception args compared via repr(). One spin iteration of the thread runner's wait = sleep(10 ms) virtual. Only two deterministic schedules per distributed run (C09 explores deviations).",
+    design_ref="§2 C19",
+)
+
 NOT_YET = "check not built yet in this session (planned, see DESIGN.md §2)"
 
 
